@@ -298,23 +298,25 @@ def _drive(case, root, fs, probes, sig):
     run_queries(3)
     lazy_shuffle = False
     nfilters = 0
-    sig["nonunique_index"] = spec["index"]["kind"] == "nonunique"
+    dup0 = False
     for si, step in enumerate(case["steps"]):
         op = step["op"]
         sig["last_step"] = op
-        if op in ("persist", "parquet"):
-            lazy_shuffle = False
-        if op == "filter" and lazy_shuffle:
-            sig["filter_after_lazy_shuffle"] = True
-        if op in ("persist", "parquet", "pack"):
-            nfilters = 0
-        if op == "filter":
-            nfilters += 1
-            sig["two_or_more_chained_filters"] = nfilters >= 2
         probes[f"step_{op}"] = 1
         if op == "filter":
             if step["col"] not in template["other"]:
                 continue
+            # bookkeeping for the known findings (only for steps that really execute)
+            if lazy_shuffle:
+                sig["filter_after_lazy_shuffle"] = True
+            if nfilters == 0:
+                allidx = [v for s in snaps for v in s["index"]]
+                dup0 = len(set(map(str, allidx))) < len(allidx)
+            nfilters += 1
+            if nfilters >= 2:
+                sig["two_or_more_chained_filters"] = True
+                if dup0:
+                    sig["index_had_duplicates_before_the_filters"] = True
             if "val" in step:
                 ddf = ddf[ddf[step["col"]] != step["val"]]
                 keepf = lambda s: [v != step["val"] for v in s["other"][step["col"]]]  # noqa: E731
@@ -339,6 +341,8 @@ def _drive(case, root, fs, probes, sig):
             snaps = _sync(ddf, want, probes, sig, "select")
         elif op == "persist":
             ddf = _guard("persist", lambda: ddf.persist(), sig)
+            lazy_shuffle = False
+            nfilters = 0
             want = Counter(r for s in snaps for r in snap_records(s))
             snaps = _sync(ddf, want, probes, sig, "persist")
         elif op == "build_sindex":
@@ -361,6 +365,7 @@ def _drive(case, root, fs, probes, sig):
             ddf = new
             packed = True
             lazy_shuffle = True
+            nfilters = 0
             want = Counter(r for s in snaps for r in snap_records(s, False))
             snaps = _sync(ddf, want, probes, sig, "pack_partitions", with_index=False)
             template = dict(template, index_name="hilbert_distance")
@@ -389,6 +394,8 @@ def _drive(case, root, fs, probes, sig):
             first_geo = next(c for c in template["order"] if c in template["geo"])
             active = first_geo
             snaps = _sync(ddf, want, probes, sig, f"parquet[{step['writer']}]", with_index=widx)
+            lazy_shuffle = False          # the re-read frame is materialised storage
+            nfilters = 0
             if step.get("geometry") in template["geo"] or step.get("bounds"):
                 geom = step.get("geometry") if step.get("geometry") in template["geo"] else None
                 box = step.get("bounds")
@@ -424,6 +431,7 @@ def _query(q, ddf, snaps, active, template, case, probes, sig, packed):
     from spatialpandas import GeoDataFrame, sjoin
     kind = q["q"]
     sig["query"] = kind
+
     M = rebuild(snaps, active, template)
     akind = template["geo"][active][0]
     box = list(q["box"])
